@@ -14,13 +14,15 @@ SPEC = dict(
         "a watch response without events (progress notification) is legal input; an error response (Canceled, or CompactRevision set) is the last one on its channel, which is then closed, as the etcd client does",
         "exclusive mode: among keys announced by one snapshot (first load, late join, reload) any may be the owner of a shared value; after a re-subscription that replays older revisions both the view with and without the replay are accepted",
         "subscribers join while no reload is in progress, except in the gated join-during-reload family (new key, reload observed parked in its wait, NewSubscriber returned before the gate opens), whose accesses are ordered through the WaitGroup",
-        "hang verdicts (NewSubscriber / stateWatcher.updateState / reload not returning): the goroutine is parked on a mutex of the package for 20 s with nothing else running in the package; a state watcher that is never seen waiting during 20 s of a constant connection state counts as stuck",
+        "hang verdicts (NewSubscriber / stateWatcher.updateState / reload not returning / watch goroutines not returning to their loop; only awaited when the harness holds no listener back; plus, for the snapshot-not-accepted class, >= 3 successful Gets answered meanwhile): the goroutine is parked on a mutex of the package for 20 s with nothing else running in the package; a state watcher that is never seen waiting during 20 s of a constant connection state counts as stuck",
         "reload deadlock verdict: reload goroutine parked in WaitGroup.Wait and a watch goroutine parked on the cluster mutex for 20 s with nothing else running is the witness (the property there is termination of the reload)",
     ],
     runs=[
-        dict(pkg=_PKG, run="^TestVerifC15(Systematic|Histories|Rekeyed|Reconnect|TwoStreams|GapAfterSnapshot|GetRetry|EndToEnd|RealConnState|RetryAfterDialFailure|ReaderStorm)$", timeout=240, timeout_thorough=3000),
+        dict(pkg=_PKG, run="^TestVerifC15(Systematic|Histories|Rekeyed|Reconnect|TwoStreams|GapAfterSnapshot|GetRetry|EndToEnd|RealConnState|ReaderStorm)$", timeout=240, timeout_thorough=3000),
         # own process: a deadlocked cluster leaves parked goroutines behind
         dict(pkg=_PKG, run="^TestVerifC15(ReloadInflight|JoinDuringReload)$", timeout=240, timeout_thorough=3000),
+        # own process: creates (and fails to create) a real etcd client
+        dict(pkg=_PKG, run="^TestVerifC15RetryAfterDialFailure$", timeout=240, timeout_thorough=3000),
         dict(pkg=_PKG, run="^TestVerifC15Race", race=True, timeout=240, timeout_thorough=3000),
         # resolver builder on top of the subscriber (model etcd put into lib/discov/internal's connManager through a go:linkname reference in the test file)
         dict(pkg="./rpc/resolver/internal", run="^TestVerifC15Resolver", timeout=240, timeout_thorough=3000),
